@@ -1,0 +1,5 @@
+//go:build !verif
+
+package core
+
+func verifNewSocket(*socket) {}
